@@ -8,7 +8,7 @@ TRUSTED_BASE = ['CBMC 6.11 + cadical', 'tools/extract.py rewrite rules', 'rely/g
                 'CompletionEventImpl::notify = release store + FUTEX_WAKE(all), wait returns only after an acquire load of the value (proved under C21); waitFor/waitUntil return true only if the value was observed',
                 'atomic RMW axiom: the compare-exchange kNotStarted -> kRunning succeeds for exactly one thread']
 ASSUMPTIONS = ['A-SC; checked discipline: loads of the status word that decide readiness are acquire, the claiming CAS carries acquire, the completing store carries release',
-               'runFunc (virtual: the user functor + result construction) is an arbitrary terminating call; result identity (every get() returns the same object) and reference counting / dealloc are NOT decided',
+               'runFunc (virtual: the user functor + result construction) is an arbitrary terminating call; result identity (every get() returns the same object) is decided only as far as the lifetime of the shared state: the reference count equals the number of owners for fewer than 2^31 simultaneous owners and dealloc() runs exactly when the last owner lets go (specs/c18_refcount.c); which call sites own a reference is not under contract',
                'termination of the compare_exchange_weak retry loop is not proved (spurious failures are unbounded)',
                'then-chain execution and the task-set counter decrement are only checked to happen after the future is published as ready']
 EXPLANATION = 'runFunc only by the CAS winner, at most once; completion published by notify (store + wake) after the functor ran; waiters return only after observing kReady'
@@ -70,12 +70,29 @@ def build(ctx):
     em('Fut_waitUntil', r'std::future_status\s+waitUntil\s*\([^)]*\)', must=('R17',))
     em('Fut_ready', r'bool\s+ready\s*\(\s*\)')
     em('Fut_run0', r'void\s+run\s*\(\s*\)', must=('R17',))
+    # shared-state lifetime (reference count): the counter's type and initial value are read from the member declaration
+    m = re.search(r'std::atomic<\s*([\w:]+)\s*>\s+refCount_\s*\{\s*(\w+)\s*\}\s*;', txt)
+    if not m:
+        raise X.ExtractionError('FutureImplBase: declaration `std::atomic<T> refCount_{n};` not found')
+    ty = m.group(1).replace('std::', '')
+    if ty not in ('uint8_t', 'uint16_t', 'uint32_t', 'uint64_t', 'unsigned', 'size_t', 'int8_t', 'int16_t', 'int32_t', 'int64_t', 'int', 'long', 'ssize_t'):
+        raise X.ExtractionError('FutureImplBase::refCount_: unsupported counter type %r' % ty)
+    ctx.emit_text('refcount_t.inc', '/* R9: from `%s` in %s */\ntypedef %s refcount_t;\n#define REFCOUNT_INIT %s\n' % (m.group(0), F, ty, m.group(2)))
+    RC = [('R7', r'refCount_\.fetch_add\((\w+),\s*std::memory_order_(\w+)\)', r'A_FETCH_ADD_ref(\1, MO_\2)'),
+          ('R7', r'refCount_\.fetch_sub\((\w+),\s*std::memory_order_(\w+)\)', r'A_FETCH_SUB_ref(\1, MO_\2)'),
+          ('R17', r'(?<![\w.>])dealloc\(\);', 'G_dealloc();'),
+          ('R16', r'DISPENSO_TSAN_ANNOTATE_HAPPENS_(?:BEFORE|AFTER)\(&refCount_\);', '/* tsan annotation */')]
+    ctx.emit('Fut_incRefCount.body.inc', r.function(F, r'void\s+incRefCount\s*\(\s*\)', within=CLS), subs=opt(RC), must_fire=['R7'])
+    ctx.emit('Fut_decRefCountMaybeDestroy.body.inc', r.function(F, r'void\s+decRefCountMaybeDestroy\s*\(\s*\)', within=CLS), subs=opt(RC), must_fire=['R7', 'R17'])
     S = 'specs/c18_future.c'
-    units = [Unit('FutureImplBase::run(int)', 'cbmc', S, 'Fut_run', loop_contracts=True, expect=[r'postcondition\.3', r'G_runFunc\.assertion', r'loop_invariant|loop_step'], timeout=300),
-             Unit('FutureImplBase::waitCommon', 'cbmc', S, 'Fut_waitCommon', replace=['Fut_run'], expect=[r'postcondition'], timeout=300),
-             Unit('FutureImplBase::wait', 'cbmc', S, 'Fut_wait', replace=['Fut_waitCommon'], expect=[r'postcondition'], timeout=300),
-             Unit('FutureImplBase::waitFor', 'cbmc', S, 'Fut_waitFor', replace=['Fut_waitCommon'], expect=[r'postcondition'], timeout=300),
-             Unit('FutureImplBase::waitUntil', 'cbmc', S, 'Fut_waitUntil', replace=['Fut_waitCommon'], expect=[r'postcondition'], timeout=300),
-             Unit('FutureImplBase::ready', 'cbmc', S, 'Fut_ready', expect=[r'postcondition'], timeout=300),
-             Unit('FutureImplBase::run()', 'cbmc', S, 'Fut_run0', replace=['Fut_run'], expect=[r'postcondition'], timeout=300)]
+    rp = dict(prog='replay/c18_replay.cpp', args=lambda ce, u: [], no_rlimit=True)
+    units = [Unit('FutureImplBase::run(int)', 'cbmc', S, 'Fut_run', loop_contracts=True, expect=[r'postcondition\.3', r'G_runFunc\.assertion', r'loop_invariant|loop_step'], timeout=300, replay=rp),
+             Unit('FutureImplBase::waitCommon', 'cbmc', S, 'Fut_waitCommon', replace=['Fut_run'], expect=[r'postcondition'], timeout=300, replay=rp),
+             Unit('FutureImplBase::wait', 'cbmc', S, 'Fut_wait', replace=['Fut_waitCommon'], expect=[r'postcondition'], timeout=300, replay=rp),
+             Unit('FutureImplBase::waitFor', 'cbmc', S, 'Fut_waitFor', replace=['Fut_waitCommon'], expect=[r'postcondition'], timeout=300, replay=rp),
+             Unit('FutureImplBase::waitUntil', 'cbmc', S, 'Fut_waitUntil', replace=['Fut_waitCommon'], expect=[r'postcondition'], timeout=300, replay=rp),
+             Unit('FutureImplBase::ready', 'cbmc', S, 'Fut_ready', expect=[r'postcondition'], timeout=300, replay=rp),
+             Unit('FutureImplBase::run()', 'cbmc', S, 'Fut_run0', replace=['Fut_run'], expect=[r'postcondition'], timeout=300, replay=rp),
+             Unit('FutureImplBase::incRefCount', 'cbmc', 'specs/c18_refcount.c', 'Fut_incRefCount', expect=[r'postcondition'], timeout=300, replay=rp),
+             Unit('FutureImplBase::decRefCountMaybeDestroy', 'cbmc', 'specs/c18_refcount.c', 'Fut_decRefCountMaybeDestroy', expect=[r'postcondition', r'G_dealloc\.assertion'], timeout=300, replay=rp)]
     return units
